@@ -448,6 +448,8 @@ def part_a_wide(ctx, only=None):
         vals = [(1 << i, 1 << j) for i in range(wa) for j in range(wb)]
         specials_a = [0, ma, ma >> 1, 1 << (wa - 1), (1 << (wa - 1)) + 1, 0x5555555555 & ma, 0xAAAAAAAAAA & ma, ma - 1]
         specials_b = [0, mb, mb >> 1, 1 << (wb - 1), (1 << (wb - 1)) + 1, 0x5555555555 & mb, 0xAAAAAAAAAA & mb, max(mb - 1, 0)]
+        specials_a = sorted({x & ma for x in specials_a})     # (1 << (w - 1)) + 1 does not fit when w == 1
+        specials_b = sorted({y & mb for y in specials_b})
         vals += [(x, y) for x in specials_a for y in specials_b]
         vals += [(x, x & mb) for x in specials_a] + [(y & ma, y) for y in specials_b]
         vals += [(rng.getrandbits(wa), rng.getrandbits(wb)) for _ in range(40 if quick else 200)]
